@@ -329,10 +329,11 @@ func init() {
 		"github.com/goark/errs.Is":         inErrIs,
 		"github.com/goark/errs.Wrap":       inErrsWrap,
 		"github.com/goark/errs.WithContext": func(ex *Exec, fn *ssa.Function, a []Value, g *Term, w string) Value {
-			return &OpaqueVal{Kind: "errs.ctx"}
+			// an errs option: [is it a cause option, the cause]
+			return &OpaqueVal{Kind: "errs.opt", Args: []Value{False, newErrNil(len(ex.errNames))}}
 		},
 		"github.com/goark/errs.WithCause": func(ex *Exec, fn *ssa.Function, a []Value, g *Term, w string) Value {
-			return &OpaqueVal{Kind: "errs.cause", Args: []Value{a[0]}}
+			return &OpaqueVal{Kind: "errs.opt", Args: []Value{True, a[0]}}
 		},
 		"math.Pow":           inPow,
 		"math.Round":         func(ex *Exec, fn *ssa.Function, a []Value, g *Term, w string) Value { return FPOp(OpFPRound, a[0].(*Term)) },
@@ -426,6 +427,8 @@ func init() {
 		"text/template.New":   inTmplNew,
 		"(*text/template.Template).Parse":   inTmplParse,
 		"(*text/template.Template).Execute": inTmplExecute,
+		"(*text/template.Template).Clone":  inTmplClone,
+		"text/template.Must":               inTmplMust,
 		"strings.Cut":                      inCut,
 		"strings.CutPrefix":                inCutPrefix,
 		"strings.IndexByte":                inIndexByte,
@@ -1302,19 +1305,30 @@ func inErrsWrap(ex *Exec, fn *ssa.Function, args []Value, g *Term, where string)
 	for i := 0; i < n; i++ {
 		r.Bits[i] = e.bit(i)
 	}
-	if opts.Len.op != OpConst {
-		unsupported("errs.Wrap with symbolic option count at %s", where)
+	// every represented option counts while its index is below the (possibly symbolic) option count
+	if opts.Len.op == OpConst && int(opts.Len.i) > len(opts.Elems) {
+		unsupported("errs.Wrap options beyond the represented prefix at %s", where)
 	}
-	for i := 0; i < int(opts.Len.i); i++ {
+	for i := 0; i < len(opts.Elems); i++ {
+		active := BVBin(OpBVSLt, BV(int64(i)), opts.Len)
+		if active.IsFalse() || opts.Elems[i] == nil {
+			continue
+		}
 		o, ok := opts.Elems[i].(*OpaqueVal)
-		if !ok {
+		if !ok || o.Kind != "errs.opt" {
 			unsupported("errs.Wrap option %T at %s", opts.Elems[i], where)
 		}
-		if o.Kind == "errs.cause" {
-			c := o.Args[0].(*ErrVal)
-			for j := 0; j < n; j++ {
-				r.Bits[j] = Or(r.Bits[j], And(Not(c.Nil), c.bit(j)))
-			}
+		isCause := o.Args[0].(*Term)
+		c, ok := o.Args[1].(*ErrVal)
+		if !ok {
+			unsupported("errs.WithCause of %T at %s", o.Args[1], where)
+		}
+		on := And(active, isCause, Not(c.Nil))
+		if on.IsFalse() {
+			continue
+		}
+		for j := 0; j < n; j++ {
+			r.Bits[j] = Or(r.Bits[j], And(on, c.bit(j)))
 		}
 	}
 	// a nil error stays nil and matches nothing
@@ -1471,6 +1485,25 @@ func inTmplParse(ex *Exec, fn *ssa.Function, args []Value, g *Term, where string
 	h := &OpaqueVal{Kind: "tmpl", Args: []Value{text}, X: "parsed"}
 	// on failure Parse returns (nil, err); the handle is only used on success
 	return TupleVal{h, e}
+}
+
+// Clone of a template handle: an independent handle with the same (empty or parsed) state; never fails
+// for templates that have not been executed (text/template documents an error only after execution).
+func inTmplClone(ex *Exec, fn *ssa.Function, args []Value, g *Term, where string) Value {
+	h, ok := args[0].(*OpaqueVal)
+	if !ok || h.Kind != "tmpl" {
+		unsupported("Clone on %T at %s", args[0], where)
+	}
+	if h.Nil != nil {
+		ex.panicIf(And(g, h.Nil), "Clone on a nil template at "+where)
+	}
+	return TupleVal{&OpaqueVal{Kind: "tmpl", Args: append([]Value(nil), h.Args...), X: h.X}, newErrNil(len(ex.errNames))}
+}
+
+func inTmplMust(ex *Exec, fn *ssa.Function, args []Value, g *Term, where string) Value {
+	e := args[1].(*ErrVal)
+	ex.panicIf(And(g, Not(e.Nil)), "template.Must with a non-nil error at "+where)
+	return args[0]
 }
 
 // dataIdentity: a string term identifying the data object passed to Execute
